@@ -320,6 +320,54 @@ def resolverShapeOk : Bool := {'true' if r['ok'] else 'false'}{why}
 """
 
 
+def extract_config():
+    """Config.FIELDS (class attribute, read by `ast`) and the accepted na_action values."""
+    why = []
+    fields = []
+    try:
+        tree = _src("formulae/config.py")
+        for node in tree.body:
+            if isinstance(node, ast.ClassDef) and node.name == "Config":
+                for st in node.body:
+                    if (isinstance(st, ast.Assign) and len(st.targets) == 1
+                            and isinstance(st.targets[0], ast.Name) and st.targets[0].id == "FIELDS"):
+                        val = ast.literal_eval(st.value)
+                        fields = [(str(k), [str(x) for x in v]) for k, v in val.items()]
+        if not fields:
+            why.append("Config.FIELDS not found")
+        m = _methods(tree, "Config")
+        ok, w = _golden_ok("config_methods", {k: m[k] for k in ("__init__", "__setitem__",
+                                                                "__setattr__", "__getitem__") if k in m})
+        if not ok:
+            why += w
+    except Exception as e:  # noqa
+        why.append(f"config.py: {e}")
+    na = []
+    try:
+        tree = _src("formulae/matrices.py")
+        for node in ast.walk(tree):
+            if (isinstance(node, ast.Compare) and isinstance(node.left, ast.Name)
+                    and node.left.id == "na_action" and len(node.ops) == 1
+                    and isinstance(node.ops[0], ast.NotIn)):
+                na = [str(x) for x in ast.literal_eval(node.comparators[0])]
+        if not na:
+            why.append("na_action check not found in design_matrices")
+    except Exception as e:  # noqa
+        why.append(f"matrices.py: {e}")
+    import json
+
+    def lst(xs):
+        return "[" + ", ".join(json.dumps(x) for x in xs) + "]"
+    flds = "[" + ", ".join(f"({json.dumps(k)}, {lst(v)})" for k, v in fields) + "]"
+    shape = "".join(f"\n-- shape: {w}" for w in why)
+    return f"""def configFields : List (String × List String) := {flds}
+
+def naActions : List String := {lst(na)}
+
+def configShapeOk : Bool := {'true' if not why else 'false'}{shape}
+"""
+
+
 KNOWN_KINDS = None
 
 
@@ -337,6 +385,7 @@ def generate():
     parts.append(extract_c11())
     from extract_c13 import extract_coding, lean_coding_tables
     parts.append(lean_coding_tables(extract_coding()))
+    parts.append(extract_config())
     parts.append("end FormulaeModel.Generated\n")
     return "\n".join(parts), dict(parser=p, resolver=r)
 
